@@ -62,6 +62,10 @@ def run(ctx):
         inputs.append(frontend.type_mutate(rng, src))
     inputs += frontend.test_snippets()
     inputs += frontend.empty_value_programs()
+    # every typing-rule program of C07 (one per documented rule and position, scoping matrix, `??` operand matrix): accepted or a
+    # located TypeCheckError, never an internal exception
+    from props import C07
+    inputs += [src for src, _ in C07.rules()]
     named = frontend.mentioned_name_programs()
     inputs += named if not ctx.quick else rng.sample(named, min(len(named), 900))
     # every placement of the flavour-sensitive constructs (the C06 enumeration, sampled): accepted or diagnosed, never a crash
